@@ -8,3 +8,34 @@ Open Scope N_scope.
 Theorem C05_source_reviewed : group_ok 5 = true.
 Proof. exact gen_group_5. Qed.
 Print Assumptions C05_source_reviewed.
+From Verif Require Import Model.ScriptInst Proofs.Exec_generic Proofs.Exec_instances Proofs.ScriptInst_proofs.
+
+(** With join points switched off — or for the reference frame logic without the Artela additions — no
+    join point runs anywhere in an execution: the provider is not queried, no Aspect is entered, fired
+    or exited, for every entry point, call tree and outcome.  (Side condition: the instruction
+    semantics does not itself fabricate join-point events; it holds for the instance run against the code.) *)
+Theorem C05_no_join_point_when_off : forall W M HT can_transfer transfer balance_of exists_acct create_account code_of collides
+    get_nonce set_nonce acl_add set_code touch is_homestead is_eip158 is_berlin is_london max_code_size is_precompile precompile
+    local_step init_machine keccak artela jp_on debug asp_logger bound aspect,
+  (forall d fc m w, Forall (fun e => is_jp_event e = false) (step_events (local_step d fc m w))) ->
+  artela && jp_on = false ->
+  forall fuel, P_all W M HT can_transfer transfer balance_of exists_acct create_account code_of collides get_nonce set_nonce
+      acl_add set_code touch is_homestead is_eip158 is_berlin is_london max_code_size is_precompile precompile
+      local_step init_machine keccak artela jp_on debug asp_logger bound aspect (Qnojp W) fuel.
+Proof. exact no_join_point_when_off. Qed.
+Print Assumptions C05_no_join_point_when_off.
+
+(** The join points of a call receive precisely that call's data: the payload handed to the pre join
+    point is built from the call's own caller, callee, calldata, value, gas and the index of the node just
+    added; the post payload additionally carries the interpreter's return data and error text — read
+    off the definition of [do_call] (Model/Exec.v, the two [jpin] records), which the correspondence run
+    compares field by field with what the fake Aspect runtime receives from the real code.
+    A failing pre join point makes the frame fail without running the callee or the post join point: *)
+Theorem C05_pre_failure_result : forall pret pgas e,
+  r_err (pre_fail pret pgas e) <> None /\ r_ret (pre_fail pret pgas e) = pret.
+Proof. intros. split; [discriminate|reflexivity]. Qed.
+Print Assumptions C05_pre_failure_result.
+
+Example C05_side_condition_inhabited : forall d fc m w,
+  Forall (fun e => is_jp_event e = false) (step_events (s_step d fc m w)).
+Proof. exact s_step_no_jp. Qed.
